@@ -73,7 +73,11 @@ def build(plan):
         if n["out"] == "obj":
             types[i] = ObjectType("T%d" % i, fields_of(i))
     root = ObjectType("Root", fields_of(0))
-    if plan["op"] == "mutation":
+    if plan["op"] == "mutation" and (plan.get("variant") or {}).get("root") == "shared":
+        # gamma: ONE object type is the query root and the mutation root (schema { query: Root  mutation: Root }); what decides
+        # how the top-level fields run is the operation's keyword
+        schema = Schema(root, mutation_type=root)
+    elif plan["op"] == "mutation":
         schema = Schema(ObjectType("Query", [Field("dummy", Int)]), mutation_type=root)
     else:
         schema = Schema(root)
